@@ -80,6 +80,23 @@ Theorem C15_cbf_never_after_cancel : forall b k ops, forallb (fun o => negb (reb
 Proof. exact cbf_never_after_cancel. Qed.
 Print Assumptions C15_cbf_never_after_cancel.
 
+Theorem C15_cbf_duplicate_cancels : forall b k p q ops, buf_find b k = Some q ->
+  forallb (fun o => negb (rebuffers k o)) ops = true ->
+  snd (cbf_step b (CBuf k p)) = None /\
+  let b' := fst (cbf_step b (CBuf k p)) in
+  buf_find b' k = None /\
+  Forall (fun x => x = None)
+    (map (fun po => match po with (CTimeout k', Some p) => if list_eqb k' k then Some p else None | _ => None end)
+         (combine ops (snd (cbf_run b' ops)))).
+Proof. exact cbf_duplicate_cancels. Qed.
+Print Assumptions C15_cbf_duplicate_cancels.
+
+Theorem C15_cbf_only_timeout_sends : forall ops b i o p, nth_error ops i = Some o ->
+  nth_error (snd (cbf_run b ops)) i = Some (Some p) ->
+  exists k, o = CTimeout k /\ buf_find (fst (cbf_run b (firstn i ops))) k = Some p.
+Proof. exact cbf_only_timeout_sends. Qed.
+Print Assumptions C15_cbf_only_timeout_sends.
+
 Theorem C15_cbf_at_most_once : forall b k ops p, snd (cbf_step b (CTimeout k)) = Some p ->
   forallb (fun o => negb (rebuffers k o)) ops = true ->
   let b' := fst (cbf_step b (CTimeout k)) in
@@ -114,8 +131,10 @@ Print Assumptions C15_ls_flushed_or_dropped.
 Example C15_example :
   sn_returned 3 65533 = [65534; 0; 1] /\
   snd (cbf_run [] [CBuf [1] [9]; CTimeout [1]; CTimeout [1]; CBuf [2] [8]; CCancel [2]; CTimeout [2]]) =
-    [None; Some [9]; None; None; None; None].
-Proof. vm_compute. split; reflexivity. Qed.
+    [None; Some [9]; None; None; None; None] /\
+  snd (cbf_run [] [CBuf [1] [9]; CBuf [2] [8]; CBuf [1] [9]; CTimeout [1]; CTimeout [2]]) =
+    [None; None; None; None; Some [8]].
+Proof. vm_compute. repeat split; reflexivity. Qed.
 
 (* ---- (4) critical sections are atomic ---- *)
 Theorem C15_closed_sections :
